@@ -457,7 +457,13 @@ def canon_real(resp, case):
                 else:
                     assoc.append(("ty", "".join(ts)))
             elif m["kind"] == "fn":
-                body = parse_body(m["body"], case)
+                try:
+                    body = parse_body(m["body"], case)
+                except (AssertionError, ValueError, IndexError, KeyError):
+                    # a body of unknown shape: the tie is broken (reported), the run-time oracle still judges it
+                    members = set(re.findall(r"self \. (\w+)", m["body"]))
+                    idx = member_index(members.pop(), case) if len(members) == 1 else None
+                    body = ("opaque", m["body"], idx)
         out.append((tr, rk, assoc, body))
     return ("impls", out)
 
@@ -504,6 +510,8 @@ def canon_model(t, names):
 
 
 def body_field(b):
+    if b[0] == "opaque":
+        return b[2]
     while b[0] != "field":
         b = b[1] if b[0] in ("ref", "refmut") else b[4]
     return b[1]
@@ -517,6 +525,8 @@ def body_kind(b):
         return "forwarded"
     if b[0] == "extract":
         return "specialized"
+    if b[0] == "opaque":
+        return "opaque"
     return "other"
 
 
@@ -880,6 +890,8 @@ def emit_case(case, real):
     ops = []
     for k, (tr, rk, assoc, body) in enumerate(real):
         bk = body_kind(body)
+        if bk == "opaque" and d in ("Deref", "DerefMut"):
+            bk = "forwarded" if case["_exp"][2] else "direct"
         if d == "Deref":
             tgt = ftyi if bk == "direct" else "Inner"
             c = cand("addr(&%(a)s)") if bk == "direct" else cand("addr(<" + ftyi + " as Deref>::deref(&%(a)s))")
@@ -953,8 +965,9 @@ def emit_case(case, real):
                 if mut:
                     L += ["  { let mut s = mk(); let ident = %s; let fwd = %s; let before = %s;" % (idn, fwd, fps),
                           "    let got = { let r: &mut %s = <%s as AsMut<%s>>::as_mut(&mut s); %s addr(r) }; let after = %s;" % (ri, sinst, ri, wr, fps)]
+                    own = ("pos(&[" + ", ".join("%s.tag" % a for a in acc) + "], &777u32)") if cls == "fld" else '"-"'
                     line("as_mut", ("k", str(k)), ("cls", '"%s"' % cls), ("ident", "pos(&ident, &got)"), ("fwd", "pos(&fwd, &got)"),
-                         ("changed", "changed(&before, &after)"))
+                         ("changed", "changed(&before, &after)"), ("own", own))
                 else:
                     L += ["  { let s = mk(); let ident = %s; let fwd = %s;" % (idn, fwd),
                           "    let got = { let r: &%s = <%s as AsRef<%s>>::as_ref(&s); addr(r) };" % (ri, sinst, ri)]
@@ -1073,7 +1086,12 @@ def run(tier, seed, replay):
             continue
         model = canon_model(t, names)
         n_tie += 1
-        if model != real:
+        opaque = real[0] == "impls" and any(im[3] is None or im[3][0] == "opaque" for im in real[1])
+        if opaque:
+            chk.violation("unreadable-expansion", {"case": pub(c), "item": src, "model": model, "code": real},
+                          "the expansion of `%s` (%s) has a body the canonicaliser does not know (model: %s)" %
+                          (src, c["derive"], str(model)[:200]))
+        elif model != real:
             chk.violation("tie-model", {"case": pub(c), "item": src, "model": model, "code": real},
                           "Coq model and real expander disagree on derive(%s) `%s`: model %s, code %s" %
                           (c["derive"], src, str(model)[:300], str(real)[:300]))
@@ -1111,7 +1129,9 @@ def run(tier, seed, replay):
             got = []
             for (tr, rk, assoc, body) in impls:
                 bk = body_kind(body)
-                if bk == "specialized":
+                if bk == "opaque":
+                    bk = next((b for (i_, t_, b) in exp if i_ == body_field(body) and t_ == tr[1]), "opaque")
+                elif bk == "specialized":
                     # the macro defers to rustc: identity iff the two types are the same type
                     same = canon_ty(py_norm(FLAVOURS[c["flavour"]][2])) == canon_ty(py_norm(py_norm_str(body[3], c)))
                     bk = "ident" if same else "fwd"
@@ -1135,7 +1155,7 @@ def run(tier, seed, replay):
                                   (c["derive"], src, body_field(body), i))
                 bk = body_kind(body)
                 want = "forwarded" if (fwd or c["derive"] in ("Index", "IndexMut", "IntoIterator")) else "direct"
-                if bk != want:
+                if bk != want and bk != "opaque":
                     ok = False
                     chk.violation("wrong-call-kind", {"case": pub(c), "item": src, "expected": want, "code": real},
                                   "derive(%s) on `%s`: expected a %s body, got %s" % (c["derive"], src, want, body))
@@ -1333,7 +1353,21 @@ def run_rt(chk, runtime):
                     good = kv["ident"] == want and kv["fwd"] == "[]"
                 else:
                     good = kv["fwd"] == want and (cls != "fld" or kv["ident"] == "[]")
-                if not good:
+                if beh == "ident" and meta[3] in ("specialized", "opaque"):
+                    # the field's own type listed under another spelling: the autoref-specialised path
+                    chk.bump("rt:as-specialized-identity:%s:%s-level" % (c["derive"], "struct" if c["sattrs"] else "field"))
+                if beh == "ident" and cls == "fld" and kv.get("own", want) != want:
+                    good = False
+                if beh == "fwd" and cls == "fld" and kv.get("own", "[]") != "[]":
+                    good = False
+                if not good and beh == "ident" and (kv["fwd"] == want or kv.get("own", want) != want):
+                    chk.violation("rt-as-identity-lost", dict(rep, op=op, impl=k, expected=(i, beh)),
+                                  "derive(%s) on `%s`: impl #%d lists the field's own type (%s) but does not return the field itself: "
+                                  "ptr::eq with &field fails (identity-of %s), it returns what the field's own %s<Self> returns "
+                                  "(own-impl-of %s)%s" %
+                                  (c["derive"], src, k, rust_ty(tt), kv["ident"], c["derive"], kv["fwd"],
+                                   "; a write through it left field %d's own storage untouched (own=%s)" % (i, kv["own"]) if "own" in kv else ""))
+                elif not good:
                     chk.violation("rt-as-wrong-reference", dict(rep, op=op, impl=k, expected=(i, beh)),
                                   "derive(%s) on `%s`: impl #%d (target %s) returns identity-of %s / own-impl-of %s; expected %s of field %d" %
                                   (c["derive"], src, k, tt if tt == "__AsT" else rust_ty(tt), kv["ident"], kv["fwd"],
